@@ -307,7 +307,7 @@ fn sweep_sentences(cyc: &Cycle, rec: &Recorder, thorough: bool) -> Tally {
         // numbers that are valid only modulo 2^8, 2^16 or 2^32
         "M259.2.0", "M3.258.0", "M3.2.256", "J65537", "65537", "J65896", "M4294967299.2.0", "J4294967297", "M18446744073709551619.2.0", "J18446744073709551617", "18446744073709551616",
         "J340282366920938463463374607431768211457"];
-    let times: Vec<&str> = vec!["", "/2", "/0", "/24", "/24:59:59", "/25", "/-1", "/+2", "/167", "/-167:59:59", "/168", "/2:60", "/1:02:03", "/1:02:03:", "/1:02:", "/2:00:60", "/2:59:59", "/-2:00:60", "/24:00:01", "/-0:30", "/-0:00:01", "/+0:30", "/-00:30:00", "/-0"];
+    let times: Vec<&str> = vec!["", "/2", "/0", "/24", "/24:59:59", "/25", "/-1", "/+2", "/167", "/-167:59:59", "/168", "/2:60", "/1:02:03", "/1:02:03:", "/1:02:", "/2:00:60", "/2:59:59", "/-2:00:60", "/24:00:01", "/-0:30", "/-0:00:01", "/+0:30", "/-00:30:00", "/-0", "/596523", "/596524", "/-596524", "/1193047", "/2147483647"];
     let trailing: Vec<&str> = vec!["", ",", " ", "x"];
     let modes = [Mode::Settings, Mode::FooterV2, Mode::FooterV3, Mode::FooterV2After3, Mode::FooterV3After2];
     // (a) prefix product x small rule set
